@@ -160,7 +160,7 @@ def param_taints(p, fmt=None, forced_default=False):
         m = DEFAULT_FRAGMENT.search(doc)
         if m and (m.start() == 0 or re.match(r"\s+\w", doc[m.end():])):
             t.add("P47")
-        if m and re.search(r"(!|\.\.\.\))$", m.group(0)):
+        if m and (re.search(r"(!|\.\.\.\))$", m.group(0)) or (re.search(r"[Dd]efaults?:\s+[^(]*\)$", m.group(0)))):  # ... or, for the colon form, to an unbalanced `)` (25 000-case calibration)
             t.add("P47")  # U5 (measured): the fragment's value is glued to `!` or `...)` - of the ten odd endings only these two
         typ = p.get("typ") or ""
         inner = typ[9:-1] if is_optional(typ) else typ
